@@ -37,7 +37,8 @@ CONSTANTS MaxObj,    \* object slots
           MaxSteps,  \* bound on operations other than Destroy / Finish (0 = unbounded)
           Modes,     \* initial modes, subset of {"normal","coro"}
           Typed,     \* TRUE: suspend_point<int> objects take part
-          Ops        \* names of the operations that take part (bias of a configuration)
+          Ops,       \* names of the operations that take part (bias of a configuration)
+          FreeOps    \* operations that do not consume the step budget (they are bounded by MaxH)
 
 InlineCap == 3       \* suspend_point<void>::inline_count, suspend_point.h:42
 
@@ -84,7 +85,8 @@ AddOne(o, x) ==
 (* add() of every element of s in order: resulting object .o and number .a of new[] executed *)
 AddRun(o, s) ==
     LET F[k \in 0..Len(s)] == IF k = 0 THEN [o |-> o, a |-> 0]
-                                       ELSE [o |-> AddOne(F[k - 1].o, s[k]), a |-> F[k - 1].a + B2N(Full(F[k - 1].o))]
+                                       ELSE LET p == F[k - 1]
+                                            IN [o |-> AddOne(p.o, s[k]), a |-> p.a + B2N(Full(p.o))]
     IN F[Len(s)]
 
 (* _count_flag = 0 without touching the block: clear_internal after its delete[] (:218-223), the
@@ -105,8 +107,9 @@ Init == /\ sp = [k \in Slots |-> Dead]
         /\ blocks = 0 /\ dalloc = 0 /\ ret = 0 /\ steps = 0 /\ done = FALSE
 
 Tick(op) == /\ ~done /\ op \in Ops
-            /\ IF MaxSteps = 0 THEN steps' = steps     \* unbounded: every history over MaxH handles
-                              ELSE steps < MaxSteps /\ steps' = steps + 1
+            /\ IF MaxSteps = 0 \/ op \in FreeOps
+                 THEN steps' = steps     \* MaxSteps = 0: unbounded, every history over MaxH handles
+                 ELSE steps < MaxSteps /\ steps' = steps + 1
             /\ done' = done
 
 (* bookkeeping of the add()s r = AddRun(o, ..): a growth from a heap block frees the old block *)
@@ -159,12 +162,23 @@ AddHandle(i) ==
     /\ burst' = <<>> /\ ret' = 0
     /\ UNCHANGED <<resumed, queue, mode>>
 
-(* n >= 2 consecutive operator<<(coroutine_handle<>&&) filling the object exactly up to its current
+(* the same, enabled only when it is the add() that executes new[] (object filled to capacity);
+   used instead of AddHandle by the configurations biased to the capacity boundaries *)
+AddGrow(i) ==
+    /\ Tick("AddGrow") /\ sp[i].live /\ nextH < MaxH /\ Full(sp[i])
+    /\ LET r == AddRun(sp[i], <<nextH + 1>>)
+       IN sp' = [sp EXCEPT ![i] = r.o] /\ Grown(sp[i], r)
+    /\ nextH' = nextH + 1
+    /\ burst' = <<>> /\ ret' = 0
+    /\ UNCHANGED <<resumed, queue, mode>>
+
+(* n consecutive operator<<(coroutine_handle<>&&) filling the object exactly up to its current
    capacity (inline: 3, heap: _ext._capacity): a macro step which lets short histories reach the
-   capacity boundaries *)
+   capacity boundaries (n = 1 is AddHandle's business when that takes part) *)
 Room(o) == (IF o.heap THEN o.cap ELSE InlineCap) - Len(o.h)
 AddFill(i, n) ==
-    /\ Tick("AddFill") /\ sp[i].live /\ n >= 2 /\ n = Room(sp[i]) /\ nextH + n <= MaxH
+    /\ Tick("AddFill") /\ sp[i].live /\ n = Room(sp[i]) /\ nextH + n <= MaxH
+    /\ n >= 2 \/ (n = 1 /\ "AddHandle" \notin Ops)
     /\ LET r == AddRun(sp[i], NewHandles(n))
        IN sp' = [sp EXCEPT ![i] = r.o] /\ Grown(sp[i], r)
     /\ nextH' = nextH + n
@@ -274,8 +288,8 @@ Kinds == {"same", "void", "int"}
 
 Next == \/ \E k \in Slots, t \in Types : ConstructEmpty(k, t) \/ ConstructH(k, t)
         \/ \E k \in Slots, i \in Slots, kind \in Kinds : MoveConstruct(k, i, kind)
-        \/ \E i \in Slots : AddHandle(i) \/ Pop(i) \/ Clear(i) \/ Destroy(i) \/ CoAwait(i)
-        \/ \E i \in Slots, n \in 2..MaxH : AddFill(i, n)
+        \/ \E i \in Slots : AddHandle(i) \/ AddGrow(i) \/ Pop(i) \/ Clear(i) \/ Destroy(i) \/ CoAwait(i)
+        \/ \E i \in Slots, n \in 1..MaxH : AddFill(i, n)
         \/ \E i \in Slots, j \in Slots : MergeShl(i, j) \/ MoveAssign(i, j)
         \/ Pause
         \/ Finish
@@ -302,11 +316,14 @@ RepOK ==
                                        /\ Len(sp[k].h) <= sp[k].cap
                                   ELSE sp[k].cap = 0 /\ Len(sp[k].h) <= InlineCap
 
-Held(x) == LET S[k \in 0..MaxObj] == IF k = 0 THEN 0 ELSE S[k - 1] + Occ(sp[k].h, x) IN S[MaxObj]
-
-(* every handle ever handed in is in exactly one place: a live object, the ready queue, or resumed once *)
+(* every handle ever handed in is in exactly one place: a live object, the ready queue, or resumed once.
+   Everywhere == all handle arrays and the queue laid end to end *)
+Everywhere == LET S[k \in 0..MaxObj] == IF k = 0 THEN queue ELSE S[k - 1] \o sp[k].h IN S[MaxObj]
 Conservation ==
-    \A x \in Handles : Held(x) + Occ(queue, x) + resumed[x] = (IF x <= nextH THEN 1 ELSE 0)
+    LET e == Everywhere
+        held == Range(e)
+    IN /\ Cardinality(held) = Len(e)                                   \* nowhere twice
+       /\ \A x \in Handles : (IF x \in held THEN 1 ELSE 0) + resumed[x] = (IF x <= nextH THEN 1 ELSE 0)
 
 NoDoubleResume ==
     /\ \A x \in Handles : resumed[x] <= 1
@@ -345,17 +362,18 @@ ValuePreserved ==
 
 (* handles leave an object in array order (to the queue, or resumed), except that co_await resumes
    the last one first *)
-Pos(s, x) == CHOOSE k \in 1..Len(s) : s[k] = x
+Kept == UNION {Range(sp'[k].h) : k \in Slots}
 ResumeOrder ==
     [][\A i \in Slots :
          LET old == sp[i].h
-             out == burst' \o queue'
-             gone(x) == \A k \in Slots : x \notin Range(sp'[k].h)
-         IN \A p, q \in 1..Len(old) :
-              (p < q /\ gone(old[p]) /\ gone(old[q])) =>
-                 /\ old[p] \in Range(out) /\ old[q] \in Range(out)
-                 /\ \/ Pos(out, old[p]) < Pos(out, old[q])
-                    \/ q = Len(old) /\ burst' # <<>> /\ burst'[1] = old[q] /\ mode' = "coro"]_vars
+             kept == Kept
+             goneSeq == SelectSeq(old, LAMBDA x : x \notin kept)      \* left every object, in array order
+             goneSet == Range(goneSeq)
+             outSel == SelectSeq(burst' \o queue', LAMBDA x : x \in goneSet)
+         IN goneSeq # <<>> =>
+               \/ outSel = goneSeq
+               \/ /\ mode' = "coro" /\ goneSeq = old /\ burst'[1] = Last(old)
+                  /\ outSel = <<Last(old)>> \o Front(old)]_vars
 
 (* the ready queue is first-in first-out: it is only appended to, or drained in order *)
 IsPrefix(a, b) == Len(a) <= Len(b) /\ SubSeq(b, 1, Len(a)) = a
